@@ -311,6 +311,26 @@ Fixpoint render_all (field : bool) (l : list value) : outcome (list str) :=
 Definition render_item (field all : bool) (l : list value) : outcome str :=
   obind (render_all field l) (fun atoms => Ok (join (if all then tok_and else tok_or) atoms)).
 
+(* the same backend with in-expressions enabled (C17InBackend: convert_or_as_in, convert_and_as_in,
+   in_expressions_allow_wildcards; templates of TextQueryTestBackend). Backend.decide_convert_condition_as_in_expression:
+   an OR / AND of field = value conditions over one field whose values are all plain strings becomes
+   f in ("a", "b") / f contains-all ("a", "b"); anything else is converted as before. *)
+Definition is_vs (x : value) : bool := match x with VS _ => true | _ => false end.
+Definition tok_in : str := [32; 105; 110; 32; 40].                                         (* " in (" *)
+Definition tok_call : str := [32; 99; 111; 110; 116; 97; 105; 110; 115; 45; 97; 108; 108; 32; 40].   (* " contains-all (" *)
+Definition tok_comma : str := [44; 32].
+Fixpoint render_lits (l : list value) : outcome (list str) :=
+  match l with
+  | [] => Ok []
+  | x :: l' => obind (match x with VS v => convert K17 v | _ => Crash 1 end) (fun q =>
+               obind (render_lits l') (fun b => Ok (([c_dq] ++ q ++ [c_dq]) :: b)))
+  end.
+Definition render_item_in (field all : bool) (l : list value) : outcome str :=
+  if field && forallb is_vs l && Nat.leb 2 (length l) then
+    obind (render_lits l) (fun lits =>
+      Ok (fname ++ (if all then tok_call else tok_in) ++ join tok_comma lits ++ [c_rpar]))
+  else render_item field all l.
+
 (* ---------------------------------------------------------------------------------------- *)
 (* the whole run of one case *)
 Record case := {
@@ -326,3 +346,5 @@ Definition run_pipeline (c : case) : outcome (list value) :=
     else SigmaErr E_Config).
 Definition run (c : case) : outcome str :=
   obind (run_pipeline c) (render_item (c_field c) (c_all c)).
+Definition run_in (c : case) : outcome str :=
+  obind (run_pipeline c) (render_item_in (c_field c) (c_all c)).
